@@ -21,16 +21,21 @@ KINDS = [None, "kind-a", "kind-b", "kind-a-x", "zzz", "kind-b-y", "kind", ""]
 
 
 
-def ids_owned(lst, ser):
-    """like adapter.ids; the result list is the CALLER's: an empty one is extended in place afterwards (an application that
-    accumulates results, `found = a.find_all(x); found += b.find_all(y)`), and no later result may show what a caller added"""
-    from nutree import Node as _Node
-
-    if any(not isinstance(x, _Node) for x in lst):
-        raise ValueError(f"a result list that an earlier caller had extended was handed out again: {lst!r}")
+def ids_owned(thunk, ser):
+    """like adapter.ids(thunk(), ser); the result list is the CALLER's: an empty one is extended in place (an application that
+    accumulates results, `found = a.find_all(x); found += b.find_all(y)`) and the query is asked again - it must not show what the
+    caller added (a shared empty list handed out to everybody, or the library's own list).  The addition is taken back."""
+    lst = thunk()
     r = adapter.ids(lst, ser)
     if isinstance(lst, list) and not lst:
         lst.append("added by the caller")
+        try:
+            again = thunk()
+            bad = isinstance(again, list) and "added by the caller" in again
+        finally:
+            lst.clear()
+        if bad:
+            raise ValueError("an empty result is not the caller's own list: what the caller appended to it shows up in the next result")
     return r
 
 
@@ -71,7 +76,7 @@ def impl_child(node, k, ser):
 
     ka = k_arg(k)
     return {
-        "children": g(lambda: ids_owned(node.get_children(ka), ser)),
+        "children": g(lambda: ids_owned(lambda: node.get_children(ka), ser)),
         "first_child": g(lambda: i(node.first_child(ka))),
         "last_child": g(lambda: i(node.last_child(ka))),
         "has_children": g(lambda: node.has_children(ka)),
@@ -167,11 +172,15 @@ def mut_case(ctx, out, spec, seed, steps, k=0):
     log = []
     check_tree(ctx, out, {"mut": dict(spec=spec, seed=seed, steps=0, k=k, log=[])}, "mut", tree=tree)
     for step in range(steps):
-        if not list(tree):
-            log.append(mutate(tree, rng, ctx.pool, k + step))      # an emptied tree is populated again first
-            check_tree(ctx, out, {"mut": dict(spec=spec, seed=seed, steps=step + 1, k=k, log=list(log))}, "mut", tree=tree)
-            continue
-        log.append(mutate(tree, rng, ctx.pool, k + step))
+        try:
+            list(tree)
+            log.append(mutate(tree, rng, ctx.pool, k + step))      # (an emptied tree is populated again first)
+        except Exception as e:  # noqa
+            # on the unchanged library no mutation of this campaign raises out of `mutate` and a tree can always be iterated: the
+            # queries before have damaged the tree
+            out.fail(dict(q="mut", spec={"mut": dict(spec=spec, seed=seed, steps=step + 1, k=k, log=list(log))}),
+                     f"after the kind-aware queries a mutation / traversal of the tree raised {type(e).__name__}: {e} (history {log})")
+            return
         check_tree(ctx, out, {"mut": dict(spec=spec, seed=seed, steps=step + 1, k=k, log=list(log))}, "mut", tree=tree)
 
 
@@ -202,7 +211,7 @@ def check_tree(ctx, out, spec, tag, levelorder=False, tree=None):
     for k, (m, s, it_m, it_s) in zip(KINDS, resp["tree"]):
         ka = k_arg(k)
         impl = {
-            "children": g(lambda: ids_owned(tree.system_root.get_children(ka), ser)),
+            "children": g(lambda: ids_owned(lambda: tree.system_root.get_children(ka), ser)),
             "first_child": g(lambda: (lambda n: None if n is None else ser.of(n))(tree.first_child(ka))),
             "last_child": g(lambda: (lambda n: None if n is None else ser.of(n))(tree.last_child(ka))),
             "has_children": g(lambda: tree.system_root.has_children(ka)),
